@@ -9,7 +9,12 @@
   routine and the Fortran routine it replaces denote the same real function.  The translator
   honours Fortran literal kinds (a default-real literal is the rational value of its binary32
   rounding), so a literal written without a `D` exponent makes the pair differ and the proof
-  fail.  Proofs are `rfl` where the two transcriptions are syntactically identical after
+  fail.  What the real-number model cannot express is REFUSED by translate/f2ir.py, not modelled as double: a
+  real object not declared `kind = DP`, `REAL(x)` without a kind, integer division, an operation whose operands
+  are default-real literals / integers only.  Such a routine then has no generated model, this file no longer
+  builds, and the check falls back to its failing-input search (differential execution).  So the `pair_*`
+  theorems speak about the double-precision, real-division reading of both sources — which is what both
+  sources are, as long as the translator accepts them.  Proofs are `rfl` where the two transcriptions are syntactically identical after
   translation, otherwise `simp only` with the callee pairs and the sign rules `neg_mul`,
   `neg_div` (Fortran parses `-a*b` as `-(a*b)`, Python as `(-a)*b`).
 
